@@ -50,7 +50,6 @@ type config struct {
 	fresh    func() *eval.Evaluator
 	reused   *eval.Evaluator
 	isZero   func(v any) (bool, bool) // (is a number, equals zero) with the configuration's own conversion
-	zeroText string                   // canon of the zero of the number type
 }
 
 func fixedIsZero[T fixed.Dx](v any) (bool, bool) {
@@ -84,17 +83,17 @@ func floatIsZero(bits int) func(v any) (bool, bool) {
 func configs() []*config {
 	cs := []*config{
 		{name: "d4z", zero: true, fresh: func() *eval.Evaluator { return eval.NewFixedEvaluator[fixed.D4](valueResolver{}, true) },
-			isZero: fixedIsZero[fixed.D4], zeroText: "d4:0"},
+			isZero: fixedIsZero[fixed.D4]},
 		{name: "d4e", zero: false, fresh: func() *eval.Evaluator { return eval.NewFixedEvaluator[fixed.D4](valueResolver{}, false) },
-			isZero: fixedIsZero[fixed.D4], zeroText: "d4:0"},
+			isZero: fixedIsZero[fixed.D4]},
 		{name: "d2z", zero: true, fresh: func() *eval.Evaluator { return eval.NewFixedEvaluator[fixed.D2](valueResolver{}, true) },
-			isZero: fixedIsZero[fixed.D2], zeroText: "d2:0"},
+			isZero: fixedIsZero[fixed.D2]},
 		{name: "f64z", zero: true, fresh: func() *eval.Evaluator { return eval.NewFloatEvaluator[float64](valueResolver{}, true) },
-			isZero: floatIsZero(64), zeroText: "f64:0000000000000000"},
+			isZero: floatIsZero(64)},
 		{name: "f64e", zero: false, fresh: func() *eval.Evaluator { return eval.NewFloatEvaluator[float64](valueResolver{}, false) },
-			isZero: floatIsZero(64), zeroText: "f64:0000000000000000"},
+			isZero: floatIsZero(64)},
 		{name: "f32e", zero: false, fresh: func() *eval.Evaluator { return eval.NewFloatEvaluator[float32](valueResolver{}, false) },
-			isZero: floatIsZero(32), zeroText: "f32:00000000"},
+			isZero: floatIsZero(32)},
 	}
 	for _, c := range cs {
 		c.reused = c.fresh()
@@ -208,10 +207,11 @@ func (w *walker) walk(n *node) (any, error) {
 		}
 		v, err := o.Evaluate(l, r)
 		if n.op == "/" || n.op == "%" {
-			_, lok := w.c.isZero(l)
+			lok, _ := w.c.isZero(l)
 			if rnum, rzero := w.c.isZero(r); lok && rnum && rzero {
 				got := canon(v, err)
-				if w.c.zero && got != w.c.zeroText {
+				resNum, resZero := w.c.isZero(v)
+				if w.c.zero && (err != nil || !resNum || !resZero) {
 					w.divFail = fmt.Sprintf("division by zero returns %s, configured to return zero", got)
 				}
 				if !w.c.zero && err == nil {
